@@ -1,0 +1,14 @@
+//go:build verif
+
+package spdxexp
+
+// VerifHook, when non-nil, is called at the stage boundaries of the exported
+// functions.  It exists only in builds with the "verif" tag (trace recording and
+// schedule gating for the model-based verification harness).
+var VerifHook func(fn, stage string)
+
+func verifStage(fn, stage string) {
+	if h := VerifHook; h != nil {
+		h(fn, stage)
+	}
+}
